@@ -925,18 +925,22 @@ impl Circuit {
             let (meta, inputs) = gates.get(index).unwrap();
             let kind = GateKind::from(meta);
 
+            let known_inputs = input_set.len() / 2 - gates.len();
             for &l in inputs {
                 if let Some(gate) = l.get_gate_no() {
                     inner(
                         bump, gates, gate, input_set, unique_map, new_gates, gate_map,
                     )?;
+                } else if l.get_input().is_some_and(|i| i >= known_inputs) {
+                    // unknown input (checked up front: a dominating constant
+                    // earlier in the same gate must not hide it)
+                    return Err(l);
                 }
             }
 
             // apply `gate_map` to the inputs and establish conditions 1+2
             let mut neg_out = false;
             let mut mapped = BumpVec::with_capacity_in(inputs.len(), bump);
-            let known_inputs = input_set.len() / 2 - gates.len();
             match kind {
                 GateKind::And | GateKind::Or => {
                     let (identity, dominator) = match kind {
@@ -946,9 +950,6 @@ impl Circuit {
                     };
                     for &l in inputs {
                         let l = l.get_gate_no().map_or(l, |i| gate_map[i] ^ l.is_negative());
-                        if l.is_input() && l.get_input().unwrap() >= known_inputs {
-                            return Err(l);
-                        }
                         if l == dominator {
                             gate_map[index] = dominator;
                             return Ok(());
@@ -971,9 +972,6 @@ impl Circuit {
                         debug_assert!(l != Literal::TRUE);
                         if l == Literal::FALSE {
                             continue; // x ⊕ ⊥ ≡ x
-                        }
-                        if l.is_input() && l.get_input().unwrap() >= known_inputs {
-                            return Err(l);
                         }
                         mapped.push(l);
                     }
